@@ -898,6 +898,77 @@ theorem retries_bounded (cfg : Cfg) (url : String) (ok : List Nat) (st : St) :
   have := postLoop_bounded cfg url ok 0 st (Nat.zero_le _)
   simpa [post] using this
 
+/-- one iteration with any way of choosing the key form that itself sends at most `R` signed requests -/
+theorem postStep_cnt_gen (cfg : Cfg) (resolve : St → St × Bool) (R : Nat)
+    (hres : ∀ s, cnt isPost (resolve s).1.log ≤ cnt isPost s.log + R)
+    (url : String) (ok : List Nat) (n : Nat) (st : St) :
+    cnt isPost (postStep cfg resolve url ok n st).1.log ≤ cnt isPost st.log + R + 1 := by
+  unfold postStep
+  have h0 := hres st
+  generalize resolve st = x at h0
+  obtain ⟨s0, k⟩ := x
+  simp only at h0 ⊢
+  have h1 := popNonce_cnt isPost (by intro r hr; simp [isPost, hr]) cfg s0 url
+  generalize popNonce cfg s0 url = x at h1
+  obtain ⟨s1, r1⟩ := x
+  cases r1 with
+  | error e => dsimp only at h1 ⊢; omega
+  | ok v =>
+    dsimp only at h1 ⊢
+    have h2 := serve_cnt isPost s1 ⟨.post, url, some v, k⟩
+    generalize serve s1 ⟨.post, url, some v, k⟩ = x at h2
+    obtain ⟨s2, r2⟩ := x
+    have e1 : isPost ⟨.post, url, some v, k⟩ = true := rfl
+    rw [e1] at h2
+    simp only [if_true] at h2
+    cases r2 with
+    | error e => dsimp only at h2 ⊢; omega
+    | ok p =>
+      dsimp only at h2 ⊢
+      split
+      · dsimp only; omega
+      · rw [afterReply_log]; dsimp only; omega
+
+theorem postLoop_bounded_gen (cfg : Cfg) (resolve : St → St × Bool) (R : Nat)
+    (hres : ∀ s, cnt isPost (resolve s).1.log ≤ cnt isPost s.log + R)
+    (url : String) (ok : List Nat) (n : Nat) (st : St) (hn : n ≤ cfg.backoffOK) :
+    cnt isPost (postLoop cfg resolve url ok n st).1.log ≤ cnt isPost st.log + (R + 1) * (cfg.backoffOK + 1 - n) := by
+  induction hm : cfg.backoffOK + 1 - n using Nat.strongRecOn generalizing n st with
+  | _ m ih =>
+    rw [postLoop]
+    have h := postStep_cnt_gen cfg resolve R hres url ok n st
+    generalize postStep cfg resolve url ok n st = x at h
+    obtain ⟨s, r⟩ := x
+    have hm1 : m = (cfg.backoffOK + 1 - (n + 1)) + 1 := by omega
+    have hmul : (R + 1) * m = (R + 1) * (cfg.backoffOK + 1 - (n + 1)) + (R + 1) := by
+      rw [hm1, Nat.mul_succ]
+    cases r with
+    | done r => dsimp only at h ⊢; omega
+    | again last =>
+      dsimp only at h ⊢
+      split
+      · rename_i hle
+        have := ih (cfg.backoffOK + 1 - (n + 1)) (by omega) (n + 1) s hle rfl
+        omega
+      · dsimp only; omega
+
+/-- **retries_bounded, account-key form.** With `key == nil` every iteration may first look the key ID
+    up (`accountKID`, itself a bounded `post`), so one call sends at most `(backoffOK + 2)·(backoffOK + 1)`
+    signed requests — still a bound that depends on the backoff policy alone. -/
+theorem retries_bounded_kid (cfg : Cfg) (url : String) (ok : List Nat) (st : St) :
+    cnt isPost (post cfg false url ok st).1.log ≤ cnt isPost st.log + (cfg.backoffOK + 2) * (cfg.backoffOK + 1) := by
+  have hres : ∀ s, cnt isPost (accountKID cfg s).1.log ≤ cnt isPost s.log + (cfg.backoffOK + 1) := by
+    intro s
+    unfold accountKID
+    split
+    · dsimp only; omega
+    · have := (postLoop_bounded cfg acctURL [200] 0 s (Nat.zero_le _)).1
+      generalize postLoop cfg resolveJWK acctURL [200] 0 s = x at this
+      obtain ⟨s', r⟩ := x
+      cases r <;> (dsimp only at this ⊢; omega)
+  have := postLoop_bounded_gen cfg (accountKID cfg) (cfg.backoffOK + 1) hres url ok 0 st (Nat.zero_le _)
+  simpa [post, Nat.add_assoc] using this
+
 /-- …and a cancelled context ends the loop at the backoff: no retry is granted once it is cancelled,
     and a cancelled client sends nothing more. -/
 theorem cancel_stops (cfg : Cfg) (c : Bool) (n : Nat) (st : St) (p : Resp) :
